@@ -1,13 +1,20 @@
 #!/bin/sh
 # every kept seeded change must be reported by the check of its own property (scratch copy; nothing is applied to /repo)
-rc=0
-for d in /verif/seeded/*/; do
+# usage: tools_seeded_all.sh [jobs]   (default 4 in parallel)
+J=${1:-4}
+one() {
+  d=$1
   n=$(basename $d); id=$(python3 -c "import json;print(json.load(open('$d/meta.json'))['property'])")
   nd=$(python3 -c "import json;print('1' if json.load(open('$d/meta.json')).get('not_detected') else '')")
   r=$(/verif/tools_seeded.sh $d/patch.diff $id 2>&1)
   case "$r" in
     *"exit=1"*) echo "$n: reported by $id  $(echo "$r" | sed 's/.*violation: \([^ ]*\).*/\1/' | head -1 | cut -c1-100)";;
-    *) if [ -n "$nd" ]; then echo "$n: not reported by $id (documented limit, see meta.json)"; else echo "$n: NOT REPORTED by $id ($r)"; rc=1; fi;;
+    *) if [ -n "$nd" ]; then echo "$n: not reported by $id (documented limit, see meta.json)"; else echo "$n: NOT REPORTED by $id ($r)"; fi;;
   esac
-done
+}
+if [ "$1" = "--one" ]; then one $2; exit 0; fi
+ls -d /verif/seeded/*/ | xargs -P $J -I{} /verif/tools_seeded_all.sh --one {} > /tmp/seeded_all.$$ 2>&1
+sort /tmp/seeded_all.$$
+rc=0; grep -q "NOT REPORTED" /tmp/seeded_all.$$ && rc=1
+rm -f /tmp/seeded_all.$$
 exit $rc
